@@ -656,7 +656,18 @@ def check_coherence(ck, facts):
                         cands.add(v["d"])
                 ivar = cands.pop() if len(cands) == 1 else None
             elif L.get("k") == "ForRange":
+                # range-for over one per-neighbour array with a running index for the others:  std::size_t i(0); for(auto& m : mirrors) { ... at(i) ...; ++i; }
                 ivar = None
+                cands = {}
+                for cont, ix, node in index_exprs_nodes(nodes):
+                    v = strip_casts(rs, ix)
+                    if v is not None and v.get("k") == "Ref" and v.get("dk") == "local":
+                        cands.setdefault(v["d"], []).append(node)
+                if len(cands) == 1:
+                    d_, uses_ = next(iter(cands.items()))
+                    rcs = [norm.running_counter(fn, par, L, d_, u_) for u_ in uses_]
+                    if all(r_ is not None and r_["phase"] == 0 and r_["step"] is None or (r_ is not None and r_["phase"] == 0 and (strip_casts(rs, r_["step"]) or {}).get("v") in ("1", 1)) for r_ in rcs):
+                        ivar = d_
             else:
                 ini = L.get("init")
                 if ini is not None and ini.get("k") == "Decl" and len(ini.get("vars", [])) == 1:
@@ -2071,49 +2082,68 @@ def check_muxer(ck, facts):
         B = sc
         unknown = []
         L = dfl.enclosing_loops(fn, par, mo)[-1]
-        lr = norm.loop_range(fn, L, par)
-        if lr is None or lr["sign"] < 0:
-            ck.incomplete("E14.muxer-slices", "%s: the loop around the per-child mirror operation is not a recognised ascending counting loop (%s)" % (key, render(L)[:50]))
+        is_range = L.get("k") == "ForRange"
+        lr = norm.loop_range(fn, L, par) if not is_range else None
+        if (lr is None and not is_range) or (lr is not None and lr["sign"] < 0):
+            ck.incomplete("E14.muxer-slices", "%s: the loop around the per-child mirror operation is neither a recognised ascending counting loop nor a range-for (%s)" % (key, render(L)[:50]))
             continue
-        iv = lr["var"]
-        ivn = (rs.var(iv) or {}).get("n")
+        iv = lr["var"] if lr is not None else None
+        ivn = (rs.var(iv) or {}).get("n") if iv is not None else None
+        lit = lambda e_, val_: (unwrap_val(rs, e_) or {}).get("k") == "Int" and str(unwrap_val(rs, e_).get("v")) == val_
+
+        def running(x):
+            """(step node | None for 1, phase, text) of a running counter that starts at 0, else None"""
+            x = unwrap_val(rs, x) if x is not None else None
+            if x is None or x.get("k") != "Ref" or x.get("dk") != "local" or x["d"] not in dfl.assigned_decls(fn):
+                return None
+            rc_ = norm.running_counter(fn, par, L, x["d"], mo)
+            if rc_ is None or not lit(rc_["start"], "0"):
+                return None
+            return rc_["step"], rc_["phase"], x.get("n")
+
+        def iter_number(x):
+            """x is the 0-based number of the current iteration: the index of a counting loop from 0, or a unit running counter used before its update"""
+            x = unwrap_val(rs, x) if x is not None else None
+            if x is not None and x.get("k") == "Ref" and iv is not None and x.get("d") == iv and lit(lr["start"], "0"):
+                return True
+            r_ = running(x)
+            return r_ is not None and r_[1] == 0 and (r_[0] is None or lit(r_[0], "1"))
         recv = mo.get("obj")
         mst = rs.path(recv).steps
-        if not (len(mst) == 3 and mst[0] == ("this",) and mst[1][0] == "field" and mst[2][0] in ("call", "index") and (mst[2][0] == "index" or mst[2][1] == "at")):
+        cm = None
+        if is_range:
+            cm = field_of(rs, L.get("range"))
+            lv_ = (L.get("var") or {}).get("d")
+            if cm is None:
+                unknown.append((L.get("l"), "range-for over %s, which is not a member array of child mirrors" % render(L.get("range"))))
+            elif mst != (("local", lv_),):
+                (problems if (mst and mst[0] == ("this",)) else unknown).append((mo.get("l"), "per-child operation executed by %s, not by the child mirror of the iteration" % render(recv)))
+        elif not (len(mst) == 3 and mst[0] == ("this",) and mst[1][0] == "field" and mst[2][0] in ("call", "index") and (mst[2][0] == "index" or mst[2][1] == "at")):
             (problems if (mst and mst[0] == ("this",) and len(mst) == 2) else unknown).append((mo.get("l"), "per-child operation is not executed by an element of the child mirror array"))
-            cm = None
         else:
             cm = mst[1][1]
             ixtext = str(mst[2][2] if mst[2][0] == "call" else mst[2][1])
-            if ixtext != ivn and re.sub(r"^[\w:<> ]+\((\w+)\)$", r"\1", ixtext) != ivn:
-                (problems if re.match(r"^[\w\s+\-*()%:<>]+$", ixtext) else unknown).append((mo.get("l"), "child mirror subscripted with %s instead of the loop's child index %s" % (ixtext, ivn)))
+            ixname = re.sub(r"^[\w:<> ]+\((\w+)\)$", r"\1", ixtext)
+            ixvar = [v_ for d_, v_ in rs.vars.items() if v_.get("n") == ixname]
+            if not (ixtext == ivn or ixname == ivn or (len(ixvar) == 1 and iter_number({"k": "Ref", "dk": "local", "d": ixvar[0]["d"], "n": ixname}))):
+                (problems if re.match(r"^[\w\s+\-*()%:<>]+$", ixtext) else unknown).append((mo.get("l"), "child mirror subscripted with %s instead of the loop's child index" % ixtext))
         off = rs.value(dfl.arg_by_param(mo, "buffer_offset")) if dfl.arg_by_param(mo, "buffer_offset") is not None else None
         ok_off = False
         off_s = unwrap_val(rs, off) if off is not None else None
-        if off_s is not None and off_s.get("k") == "Bin" and off_s.get("op") == "*":
-            for x, y in ((off_s["lhs"], off_s["rhs"]), (off_s["rhs"], off_s["lhs"])):
-                x, y = unwrap_val(rs, x), rs.value(y)
-                if x is not None and x.get("k") == "Ref" and x.get("d") == iv and field_of(rs, y) == B and B is not None:
-                    ok_off = True
         pure = lambda e_: e_ is not None and all(x.get("k") in ("Bin", "Ref", "Int", "Member", "This", "Cast") or (x.get("k") == "MCall" and x.get("cconst")) for x in walk(e_))
         run_note = None
-        if not ok_off and off_s is not None and off_s.get("k") == "Ref" and off_s.get("dk") == "local" and off_s["d"] in dfl.assigned_decls(fn):
-            # a running offset:  T o(0); for(i ...) { use(o); o += S; }  ==  i * S  (closed form of the counter) if S does not change
-            d_ = off_s["d"]
-            mods_ = norm._mods_of(fn).get(d_, [])
-            v_ = rs.var(d_)
-            st_ = norm._step_of(mods_[0]) if len(mods_) == 1 else None
-            ini_ = unwrap_val(rs, v_.get("init")) if v_ is not None and v_.get("init") is not None else None
-            same_level = v_ is not None and [id(x) for x in dfl.enclosing_loops(fn, par, v_)] == [id(x) for x in dfl.enclosing_loops(fn, par, L)]
-            km_ = norm.KernelModel(fn)
-            ph_ = km_._phase(mo, L, mods_[0]) if len(mods_) == 1 and any(node is L for node, sl in dfl.enclosing_stmt_chain(par, mods_[0])) else None
-            if st_ is not None and st_[0] > 0 and st_[1] is not None and same_level and ini_ is not None and ini_.get("k") == "Int" and str(ini_.get("v")) == "0" \
-                    and norm.once_per_iteration(fn, par, L, mods_[0]) and ph_ is not None and lr["sign"] > 0 and str((unwrap_val(rs, lr["start"]) or {}).get("v")) == "0":
-                step_ = rs.value(st_[1])
-                if ph_ == 0 and field_of(rs, step_) == B and B is not None:
+        # offset of child i must be i * B:  (iteration number) * B  or a running offset advanced by B after its use (closed form of the counter)
+        if off_s is not None and off_s.get("k") == "Bin" and off_s.get("op") == "*":
+            for x, y in ((off_s["lhs"], off_s["rhs"]), (off_s["rhs"], off_s["lhs"])):
+                if iter_number(x) and field_of(rs, rs.value(y)) == B and B is not None:
                     ok_off = True
-                elif pure(step_):
-                    run_note = "running offset %s advanced by %s per child%s" % (render(off_s), render(st_[1])[:50], "" if ph_ == 0 else " before it is used")
+        if not ok_off and running(off_s) is not None:
+            step_n, ph_, nm_ = running(off_s)
+            step_ = rs.value(step_n) if step_n is not None else None
+            if ph_ == 0 and step_ is not None and field_of(rs, step_) == B and B is not None:
+                ok_off = True
+            elif step_ is None or pure(step_):
+                run_note = "running offset %s advanced by %s per child%s" % (nm_, render(step_n)[:50] if step_n is not None else "1", "" if ph_ == 0 else " before it is used")
         if not ok_off:
             understood = pure(off) and not any(x.get("k") == "Ref" and x.get("dk") == "local" and x.get("d") != iv and x.get("d") in dfl.assigned_decls(fn) for x in walk(off))
             if run_note is not None and B is not None:
@@ -2126,10 +2156,10 @@ def check_muxer(ck, facts):
             else:
                 ck.incomplete("E14.muxer-slices", "%s: buffer offset %s of the per-child mirror operation not understood" % (key, render(off)))
                 continue
-        # loop range = all children
-        bnd = unwrap_val(rs, lr["bound"])
-        st0 = unwrap_val(rs, lr["start"])
-        full = bnd is not None and bnd.get("k") == "MCall" and callee_name(bnd) == "size" and field_of(rs, bnd.get("obj")) == cm and lr["cmp"] in ("<", "!=") \
+        # loop range = all children (a range-for over the mirror array is complete by construction)
+        bnd = unwrap_val(rs, lr["bound"]) if lr is not None else None
+        st0 = unwrap_val(rs, lr["start"]) if lr is not None else None
+        full = is_range or bnd is not None and bnd.get("k") == "MCall" and callee_name(bnd) == "size" and field_of(rs, bnd.get("obj")) == cm and lr["cmp"] in ("<", "!=") \
             and st0 is not None and st0.get("k") == "Int" and str(st0.get("v")) == "0"
         if not full and cm is not None:
             understood = st0 is not None and st0.get("k") == "Int" and bnd is not None and (bnd.get("k") in ("Int", "Bin") or (bnd.get("k") == "MCall" and callee_name(bnd) == "size" and field_of(rs, bnd.get("obj")) is not None))
